@@ -307,6 +307,36 @@ class Gen:
         probe = r.choice([["d 8 %s %d" % (j, self.pf())], ["h " + j], ["dy " + j], ["h %d" % i, "gi"]] + ([["t %s 0 0 n" % j]] if inst == "t" else []))
         return "I %s ; " % inst + " ; ".join(ops + probe)
 
+    def legacy_fail_history(self):
+        """legacy wrappers failing at their own stages (tjTransform under TJFLAG_NOREALLOC rejecting the cropping region after it
+        has read the header, tjDecompress2 / tjDecompressToYUV2 on corrupt streams, tjCompress2 with a too small buffer), then a
+        call that must start from a clean instance"""
+        r = self.r
+        small = r.choice([2, 3, 7, 8, 13, 14, 17, 18])       # the fixed 16,16,16,16 region does not fit / is not iMCU aligned
+        k = r.below(4)
+        if k == 0:
+            inst, ops = "t", ["lt %d %d %d %d" % (small, r.range(0, 7), 4 | r.choice([0, 1, 2, 8]), 1024 | r.choice([0, 2, 8192]))]
+        elif k == 1:
+            inst, ops = "t", ["lt %s %d %d %d" % (self.jref(HIST_KINDS)[1], r.range(0, 7), r.choice([0, 4, 5]), r.choice([1024, 0, 1024 | 16384]))]
+        elif k == 2:
+            inst, ops = r.choice(["d", "t"]), ["ld %s %d %d" % (self.jref(HIST_KINDS)[1], self.pf(), r.choice(LEGACY_FLAGS)),
+                                              "ldy %s %d" % (self.jref(HIST_KINDS)[1], r.choice(LEGACY_FLAGS))]
+        else:
+            inst, ops = r.choice(["c", "t"]), ["lc %d %d %d %d %d %d %d" % (r.choice([64, 128]), r.choice([48, 96]), r.range(0, 50), self.pf(),
+                                                                            r.range(0, 6), r.range(60, 100), 1024)]
+        if r.chance(1, 2):
+            ops = ops + [ops[0]]
+        img = r.choice([0, 1, 4, 5, 9, 11])
+        if inst == "t":
+            probe = r.choice([["t %d %d 0 n" % (img, r.range(0, 7))], ["lt %d %d 0 0" % (img, r.range(0, 7))], ["d 8 %d %d" % (img, self.pf())],
+                              ["h %d" % img, "tb 0 0"]])
+        elif inst == "d":
+            probe = r.choice([["d 8 %d %d" % (img, self.pf())], ["h %d" % img], ["dy %d" % img], ["ld %d 0 0" % img]])
+        else:
+            probe = [self.comp_op(True)]
+            probe = probe[0] if isinstance(probe[0], list) else probe
+        return "I %s ; " % inst + " ; ".join(ops + probe)
+
     def raw_marker_history(self):
         r = self.r
         ops = ["d %d 1 0 1 0" % r.choice([22, 28, 28, 29]) for _ in range(r.range(1, 2))]
@@ -482,6 +512,8 @@ def run(ctx):
         hists.append((g.marker_history(), "markers"))
     for _ in range(ctx.n(40, 600)):
         hists.append((g.raw_marker_history(), "raw"))
+    for _ in range(ctx.n(60, 800)):
+        hists.append((g.legacy_fail_history(), "legacy-fail"))
     for _ in range(ctx.n(300, 3000)):
         hists.append((g.raw_history(), "raw"))
     return run_hists(ctx, hists, exes, drv, flavours)
